@@ -724,6 +724,29 @@ pub fn c09_one(b: &Built, pats: &[Vec<u8>], origin: &Value, deep: bool, acc: &mu
             }
         }
     }
+    // the image may start at any address: deserialise it behind 1, 2 and 3 leading bytes
+    for lead in 1..=3usize {
+        let mut buf = vec![0xa5u8; lead];
+        buf.extend_from_slice(&bytes);
+        buf.push(0x5a);
+        let rt = std::panic::catch_unwind(std::panic::AssertUnwindSafe(|| Auto::deserialize(b.cfg.variant, &buf[lead..])));
+        acc.traces += 1;
+        match rt {
+            Ok((r, off, rest)) => {
+                if off != bytes.len() || rest != 1 || !r.same(&b.auto) || r.serialize() != bytes {
+                    acc.violate(prop, "roundtrip",
+                        format!("deserialising the image from a slice that starts {lead} byte(s) into a buffer does not restore the automaton (consumed {off} of {}, remainder {rest}, equal: {})", bytes.len(), r.same(&b.auto)),
+                        e2::with(origin.clone(), "lead", json!(lead)));
+                    break;
+                }
+            }
+            Err(_) => {
+                let msg = util::take_last_panic().unwrap_or_default();
+                acc.violate(prop, "roundtrip", format!("deserialize_unchecked panicked on an image that starts {lead} byte(s) into a buffer: {msg}"), e2::with(origin.clone(), "lead", json!(lead)));
+                break;
+            }
+        }
+    }
     acc.sample(|| e2::with(origin.clone(), "image_bytes", json!(bytes.len())));
 }
 
